@@ -154,7 +154,7 @@ def plan(ops):
             steps.append((idx, 'assertz' if op[2] == 'z' else 'asserta', [fact], False))
         else:
             raise Unsupported(k)
-        idx += 2 if k == 'query_load' else 1
+        idx += 2 if k in ('query_load', 'prebuilt') else 1
     prog = [c for key in order for c in defs[key]]
     for c in prog:
         if c[0] in ('=', '\\=', 'call', 'once', 'findall', 'assertz', 'asserta', 'retract', 'retractall'):
@@ -174,7 +174,7 @@ def compare(rep, ops, real):
                 d = _compare_segment(rep, seg, real, base)
                 if d is not None:
                     return d
-            base += sum(2 if o[0] == 'query_load' else 1 for o in seg) + 1
+            base += sum(2 if o[0] in ('query_load', 'prebuilt') else 1 for o in seg) + 1
             seg = []
         else:
             seg.append(op)
@@ -226,5 +226,5 @@ def ops_args(ops, i):
     for op in ops:
         if idx == i:
             return op[3]
-        idx += 2 if op[0] == 'query_load' else 1
+        idx += 2 if op[0] in ('query_load', 'prebuilt') else 1
     return []
